@@ -132,7 +132,8 @@ impl<'a> LuaGen<'a> {
         out
     }
     /// a static-table local handed to library calls at varying argument positions (the `observes: write`
-    /// analysis of unused_variable / `process_function_call_finish` looks at the position of each argument)
+    /// analysis of unused_variable / `process_function_call_finish` looks at the position of each argument; the last three
+    /// callees declare no parameter at all, so every position is past the end of the declared list)
     fn static_table_stmts(&mut self, i: &str) -> String {
         self.bump("static_table_call");
         let n = self.local_name();
@@ -140,7 +141,7 @@ impl<'a> LuaGen<'a> {
         let mut out = format!("{i}local {n} = {ctor}\n");
         let calls = 1 + self.r.below(2);
         for _ in 0..calls {
-            let callee = *self.r.pick(&["table.insert", "table.insert", "table.remove", "table.sort", "rawset", "print", "G.f"]);
+            let callee = *self.r.pick(&["table.insert", "table.insert", "table.remove", "table.sort", "rawset", "print", "G.f", "os.clock", "io.flush", "coroutine.running"]);
             let argc = 1 + self.r.below(3);
             let pos = self.r.below(argc);
             let args: Vec<String> = (0..argc)
@@ -269,11 +270,24 @@ impl<'a> LuaGen<'a> {
             }
             11 | 12 => {
                 self.bump("if");
-                let mut s = format!("{i}if {} then\n{}", self.expr(2), self.block(depth - 1, ind + 1));
+                let first = self.block(depth - 1, ind + 1);
+                let mut s = format!("{i}if {} then\n{}", self.expr(2), first);
                 let ne = self.r.below(3);
                 for _ in 0..ne {
                     self.bump("elseif");
                     s.push_str(&format!("{i}elseif {} then\n{}", self.expr(2), self.block(depth - 1, ind + 1)));
+                }
+                if self.r.chance(1, 7) {
+                    // a later branch that repeats the first one token for token — however many statements and lines it has
+                    // (if_same_then_else compares the branches' tokens, not their layout)
+                    self.bump("if_branch_repeated");
+                    if self.r.chance(1, 2) {
+                        s.push_str(&format!("{i}elseif {} then\n{}", self.expr(2), first));
+                    } else {
+                        s.push_str(&format!("{i}else\n{}", first));
+                        s.push_str(&format!("{i}end\n"));
+                        return s;
+                    }
                 }
                 if self.r.chance(1, 8) {
                     // an else block that consists of nothing but a `return` (the block's last statement is no `Stmt`), whose
@@ -297,6 +311,20 @@ impl<'a> LuaGen<'a> {
             }
             14 => {
                 self.bump("generic_for");
+                if self.r.chance(1, 5) {
+                    // the shape manual_table_clone looks for: a fresh empty table filled key by key from an iterator call —
+                    // `pairs` / `ipairs` themselves or a function of the script's, with 0..2 arguments
+                    self.bump("clone_shaped_loop");
+                    let (c, k, v) = (self.local_name(), self.local_name(), self.local_name());
+                    let f = match self.r.below(4) {
+                        0 => "pairs".to_owned(),
+                        1 => "ipairs".to_owned(),
+                        _ => self.name(),
+                    };
+                    let argc = *self.r.pick(&[1usize, 1, 1, 0, 2]);
+                    let args: Vec<String> = (0..argc).map(|_| self.name()).collect();
+                    return format!("{i}local {c} = {{}}\n{i}for {k}, {v} in {f}({}) do\n{i}    {c}[{k}] = {v}\n{i}end\n", args.join(", "));
+                }
                 let n = 1 + self.r.below(2);
                 let names: Vec<String> = (0..n).map(|_| self.local_name()).collect();
                 format!("{i}for {} in {} do\n{}{i}end\n", names.join(", "), self.expr(2), self.block(depth - 1, ind + 1))
@@ -403,6 +431,8 @@ pub fn gen_program(r: &mut Rng, budget: usize, depth: usize) -> (String, std::co
             &["aa", "bB", "ab", "ba", "bC", "cb"][..],
             &["a1", "bP", "ar", "bA", "af", "ac"][..],
             &["v", "V", "va", "val", "v_", "_v"][..],
+            // spellings that merely end in / extend a name some lint treats specially
+            &["spairs", "xipairs", "nexts", "types", "selfs", "requires"][..],
         ]))
         .to_vec();
         g.bump("confusable_name_pool");
